@@ -496,7 +496,7 @@ class UnitsContainer(Mapping[str, Scalar]):
         if newval:
             new._d[key] = newval
         else:
-            new._d.pop(key)
+            new._d.pop(key, None)
         new._hash = None
         return new
 
